@@ -1,1 +1,75 @@
-"""placeholder; filled in below"""
+"""cencoding.pyx -> PqV/Gen/Specs.lean: the hand-maintained `specs` / `children` tables, the field
+loop bound of write_thrift, the short/long list-header switch, the to_bytes size heuristic."""
+import ast, os, re
+from tools.translate import register
+from tools.translate_py import Unsupported
+
+
+def dict_literal(src, name):
+    m = re.search(r"^cdef dict %s = \{" % name, src, re.M)
+    if not m:
+        raise Unsupported(f"cdef dict {name} not found in cencoding.pyx")
+    i = m.end() - 1
+    depth, j = 0, i
+    while j < len(src):
+        if src[j] == "{":
+            depth += 1
+        elif src[j] == "}":
+            depth -= 1
+            if depth == 0:
+                break
+        j += 1
+    return ast.literal_eval(src[i:j + 1])
+
+
+def func_src(src, header_re):
+    m = re.search(header_re, src, re.M)
+    if not m:
+        raise Unsupported(f"{header_re} not found")
+    rest = src[m.end():]
+    n = re.search(r"^(?:cpdef|cdef|def|@cython|cdef class|class)\b", rest, re.M)
+    return rest[: n.start()] if n else rest
+
+
+@register("Specs")
+def gen_specs(repo):
+    src = open(os.path.join(repo, "fastparquet", "cencoding.pyx")).read()
+    specs = dict_literal(src, "specs")
+    children = dict_literal(src, "children")
+    wt = func_src(src, r"^cpdef void write_thrift\(")
+    m = re.search(r"for i in range\(\s*(\d+)\s*,\s*(\d+)\s*\)", wt)
+    if not m:
+        raise Unsupported("field loop `for i in range(a, b)` not found in write_thrift")
+    lo, hi = int(m.group(1)), int(m.group(2))
+    wl = func_src(src, r"^cdef void write_list\(")
+    sw = sorted(set(re.findall(r"if l > (\d+)", wl)))
+    if len(sw) != 1:
+        raise Unsupported(f"list header switch is not uniform: {sw}")
+    tb = func_src(src, r"^    cpdef const uint8_t\[:\] to_bytes\(self\)")
+    consts = [int(x) for x in re.findall(r"\b(\d{3,})\b", tb)]
+    per = re.findall(r"size = (\d+) \* len", tb)
+    floor = re.findall(r"if size < (\d+)", tb)
+    if not per or not floor:
+        raise Unsupported("to_bytes size heuristic has an unknown shape")
+    rl = func_src(src, r"^cdef list read_list\(")
+    rsw = re.findall(r"if byte >= (0x[0-9a-fA-F]+|\d+)", rl)
+    out = ["-- REGENERATED on every run by tools/translate_specs.py from fastparquet/cencoding.pyx — do not edit",
+           "namespace PqV.Gen.Specs",
+           "/-- `specs`: struct name ↦ (field name ↦ field id) -/",
+           "def specs : List (String × List (String × Nat)) := ["]
+    out.append(",\n".join('  ("%s", [%s])' % (s, ", ".join(f'("{k}", {v})' for k, v in fs.items())) for s, fs in specs.items()))
+    out.append("]")
+    out.append("/-- `children`: struct name ↦ (field name ↦ nested struct name) -/")
+    out.append("def children : List (String × List (String × String)) := [")
+    out.append(",\n".join('  ("%s", [%s])' % (s, ", ".join(f'("{k}", "{v}")' for k, v in fs.items())) for s, fs in children.items()))
+    out.append("]")
+    out.append(f"/-- `for i in range({lo}, {hi})` in write_thrift -/")
+    out.append(f"def loopLo : Nat := {lo}\ndef loopHi : Nat := {hi}")
+    out.append(f"/-- `if l > {sw[0]}` in write_list: long list header from this length on (exclusive) -/")
+    out.append(f"def listShortMax : Nat := {sw[0]}")
+    out.append(f"/-- read_list: `if byte >= {rsw[0] if rsw else '?'}` -/")
+    out.append(f"def readLongFrom : Nat := {int(rsw[0], 0) if rsw else 0}")
+    out.append(f"/-- to_bytes: `size = {per[0]} * ...`, `if size < {floor[0]}` -/")
+    out.append(f"def sizePerUnit : Nat := {per[0]}\ndef sizeFloor : Nat := {floor[0]}")
+    out.append("end PqV.Gen.Specs")
+    return "\n".join(out) + "\n"
